@@ -58,9 +58,7 @@ func (s *Service) onWebSocketRequest(w http.ResponseWriter, r *http.Request) {
 // streams 请求处理(websocket connect,flv,mu38,ts)
 func (s *Service) onStreamsRequest(w http.ResponseWriter, r *http.Request) {
 	// 检测 websocket 请求
-	if r.Method == "GET" &&
-		strings.ToLower(r.Header.Get("Connection")) == "upgrade" &&
-		strings.ToLower(r.Header.Get("Upgrade")) == "websocket" {
+	if isWebSocketRequest(r) {
 		s.onWebSocketRequest(w, r)
 		return
 	}
@@ -81,6 +79,13 @@ func (s *Service) onStreamsRequest(w http.ResponseWriter, r *http.Request) {
 		s.logger.Warnf("request file ext is not supported: %s.", ext)
 		http.NotFound(w, r)
 	}
+}
+
+// 检测是否为 websocket 升级请求
+func isWebSocketRequest(r *http.Request) bool {
+	return r.Method == "GET" &&
+		strings.ToLower(r.Header.Get("Connection")) == "upgrade" &&
+		strings.ToLower(r.Header.Get("Upgrade")) == "websocket"
 }
 
 func (s *Service) streamInterceptor(w http.ResponseWriter, r *http.Request) bool {
@@ -108,9 +113,12 @@ func permissionInterceptor(w http.ResponseWriter, r *http.Request) bool {
 	u := auth.Get(userName)
 
 	streamPath, ext := extractStreamPathAndExt(r.URL.Path)
-	if ext == ".ts" {
+	if ext == ".ts" && !isWebSocketRequest(r) {
 		// an HLS segment is requested as {stream path}/{sequence}.ts (see hls.GetTS):
-		// the pull right that counts is the one on the stream, not on "{path}/{seq}"
+		// the pull right that counts is the one on the stream, not on "{path}/{seq}".
+		// Only hls.GetTS reads the path that way: a WebSocket upgrade opens its session
+		// on the whole path (see onWebSocketRequest), whatever the suffix, and must be
+		// checked on that path
 		if i := strings.LastIndex(streamPath, "/"); i >= 0 {
 			streamPath = streamPath[:i]
 		}
